@@ -9,8 +9,10 @@ CONSTANTS
  EncMaxLen = 0
  MaxLen = 0
  MaxOps = 0
+ TmpPaths = {"p", "q"}
+ QueryKinds = {}
  KeepHist = FALSE
 INVARIANTS HandleOK
-PROPERTIES Independence CopyExact
+PROPERTIES Independence CopyExact QueryFresh
 POSTCONDITION TraceAccepted
 CHECK_DEADLOCK FALSE
